@@ -704,6 +704,15 @@ def m_strip(I, recv, a, k, node, kind):
 
 
 def m_startswith(I, recv, a, k, node, kind):
+    if len(a) > 1 and isinstance(recv, Unk):
+        # x.endswith(s, start[, end]) is x[start:end].endswith(s)
+        lo = a[1]
+        hi = a[2] if len(a) > 2 else None
+        lo = None if (is_concrete(lo) and concrete(lo) in (0, None)) else lo
+        part = M.slice_value(I, recv, ('slice', lo, hi, None), node)
+        return m_startswith(I, part, [a[0]], k, node, kind)
+    if is_concrete(recv) and all(is_concrete(x) for x in a):
+        return getattr(concrete(recv), _mname(I, node))(*[concrete(x) for x in a])
     if is_concrete(recv) and is_concrete(a[0]):
         return getattr(concrete(recv), _mname(I, node))(concrete(a[0]))
     if _mname(I, node) == 'endswith' and isinstance(recv, Unk) and is_concrete(a[0]) \
